@@ -724,6 +724,13 @@ def fold_audit(ctx, rep, fns, consequence="names inside it are never resolved", 
         for n in walk(f["body"]):
             if n.get("k") == "local" and n.get("init") is not None and n["pat"].get("k") == "p_ident":
                 inits.setdefault(n["pat"]["n"], []).append(n["init"])
+        # a name that a match arm, an `if let` or a closure binds as well is not followed: inside that arm it is the matched value, not the local
+        for n in walk(f["body"]):
+            pats = [a_["pat"] for a_ in n["arms"]] if n.get("k") == "match" else ([n["pat"]] if n.get("k") == "let" else (n.get("params", []) if n.get("k") == "closure" else []))
+            for p_ in pats:
+                for x in walk(p_):
+                    if x.get("k") == "p_ident":
+                        inits.pop(x["n"], None)
 
         def folded(expr, depth=0, _inits=inits):
             if folded_expr(expr):
@@ -765,6 +772,25 @@ def fold_audit(ctx, rep, fns, consequence="names inside it are never resolved", 
         # (c) matches over the folded value: an arm of a variant with an expression payload folds it and takes the variant whole (no refutable
         #     sub-pattern that sends some of its values to an arm that returns them as they are)
         for m in (matches_of(f["body"]) if "arms" in parts else []):
+            # only a match that *rebuilds* the value it looks at is part of the fold: some arm yields a variant of the matched type
+            # (or hands the value on). A match that merely decides something by the variant (`match kind { Join | Append => vec![], _ => .. }`)
+            # has nothing to fold.
+            pat_variants = {last_seg(x.get("p") or "") for a0 in m["arms"] for y in pat_alts(a0["pat"]) for x in walk(y) if x.get("k") in ("p_ts", "p_struct", "p_path")}
+            owners_ = [a0 for a0 in adts.values() if a0["kind"] == "enum" and pat_variants & {v0["name"] for v0 in a0["variants"]}]
+            own_variants = {v0["name"] for a0 in owners_ for v0 in a0["variants"]}
+            scrut = show(m["e"]).lstrip("&*")
+            rebuilds = False
+            for a0 in m["arms"]:
+                for x in walk(a0["body"]):
+                    if (x.get("k") in ("call", "struct") and last_seg(show(x["f"]) if x.get("k") == "call" else x["p"]) in own_variants) or \
+                       (x.get("k") == "path" and (last_seg(x["p"]) in own_variants or x["p"] == scrut)) or \
+                       (x.get("k") == "mcall" and x["m"].startswith("fold")) or (x.get("k") == "call" and last_seg(show(x["f"])).startswith("fold_")):
+                        rebuilds = True
+                whole_bind = [y["n"] for y in pat_alts(a0["pat"]) if y.get("k") == "p_ident" and not y["n"][0].isupper()]
+                if whole_bind and any(x.get("k") == "path" and x["p"] in whole_bind for x in walk(a0["body"])):
+                    rebuilds = True
+            if not rebuilds:
+                continue
             covered = set()
             for arm in m["arms"]:
                 for alt in pat_alts(arm["pat"]):
